@@ -55,12 +55,13 @@ pub fn gen_stream(name: &str, seed: u64, n: usize, tier: &str) -> Vec<String> {
         "varint" => varint::generate(&mut rng, n, tier),
         "crypto" | "crypto_pairing" => crypto::generate(name, &mut rng, n, tier),
         "hash" | "thash" | "thash_stream" => treehash::generate(name, &mut rng, n, tier),
-        "alloc" | "alloc_limits" | "alloc_small" | "alloc_ints" => alloc::generate(name, &mut rng, n, tier),
+        "alloc" | "alloc_limits" | "alloc_small" | "alloc_sub2" | "alloc_ints" => alloc::generate(name, &mut rng, n, tier),
         "classic" => classic::generate(&mut rng, n, tier),
         "serde2026" | "intern" => serde2026::generate(name, &mut rng, n, tier),
         s if s.starts_with("backref_") => backref::generate(s, &mut rng, n, tier),
         "run" => progs::generate_run(&mut rng, n, tier, &["chia"], "any"),
         "run_runtime" => progs::generate_run(&mut rng, n, tier, &["runtime"], "any"),
+        "run_gc" => progs::generate_run_gc(&mut rng, n, tier),
         "run_default" => progs::generate_run(&mut rng, n, tier, &["chia"], "default"),
         "op" => progs::generate_op(&mut rng, n, tier, None),
         "unknown" => progs::generate_unknown(&mut rng, n, tier),
